@@ -257,9 +257,9 @@ theorem step_skip {s : St} {op : Op} {why : String} (h : (step cfg s op).2 = .sk
   | iter id back => revert h; simp only [step]; split <;> first | (intro _; rfl) | (intro h; cases h)
   | values id => revert h; simp only [step]; split <;> first | (intro _; rfl) | (intro h; cases h)
   | view v => revert h; simp only [step]; split <;> first | (intro _; rfl) | (intro h; cases h)
-  | sweep victims order => simp only [step] at h; cases h
-  | thr victims order => simp only [step] at h; cases h
-  | exit order => revert h; simp only [step]; split <;> first | (intro _; rfl) | (intro h; cases h)
+  | sweep victims order => revert h; simp only [step]; split <;> (intro h; cases h)
+  | thr victims order => revert h; simp only [step]; split <;> (intro h; cases h)
+  | exit order => simp only [step] at h; cases h
   | finish => simp only [step] at h; cases h
 
 /-- the reasons a freeing operation on a whole live object is left out -/
